@@ -159,9 +159,11 @@ AF_OPS = ("construct", "constructFrom", "mkModule", "initModule", "train", "save
 def add_forms(plan, rng):
     """give every operation with options its argument-form seed (and a ModelSaver its period: a divisor of the epoch it is called with).
     An operation that repeats the previous one (save again with the very same arguments) repeats its forms."""
-    prev = None
+    prev = last_saver = None
     for op in plan:
         if op["t"] in AF_OPS and "af" not in op:
+            if op["t"] == "saverSave" and last_saver is not None and {k: v for k, v in last_saver.items() if k not in ("af", "period")} == op:
+                prev = last_saver   # the next period of the same ModelSaver (the state may have been trained in between)
             if prev is not None and {k: v for k, v in prev.items() if k not in ("af", "period")} == op:
                 op.update({k: prev[k] for k in ("af", "period") if k in prev})
             else:
@@ -170,6 +172,8 @@ def add_forms(plan, rng):
                     e = op["path"]
                     op["period"] = rng.choice([d for d in range(1, e + 1) if e % d == 0] if e else [1, 2, 3])
         prev = op
+        if op["t"] == "saverSave":
+            last_saver = op
     return plan
 
 
@@ -315,10 +319,12 @@ class Real:
         for s in sorted(self.models):
             st = self.models[s]
             kind = {PositiveWaveFunction: "pos", ComplexWaveFunction: "cplx", DensityMatrix: "dens"}[type(st)]
-            ud = st.__dict__.get("unitary_dict")
+            # read the way any caller (and the library's own save / load, `hasattr(self, "unitary_dict")`) reads them: by attribute access,
+            # whether the class keeps them as instance attributes, properties or forwards them to its amplitude network
+            ud = getattr(st, "unitary_dict", None)
             w["states"][str(s)] = {
-                "kind": kind, "nv": int(st.__dict__["num_visible"]), "nh": int(st.__dict__["num_hidden"]),
-                "na": (int(st.__dict__["num_aux"]) if "num_aux" in st.__dict__ else None),
+                "kind": kind, "nv": int(st.num_visible), "nh": int(st.num_hidden),
+                "na": (int(st.num_aux) if kind == "dens" else None),
                 "nets": [[n, self.obs_net(getattr(st, n))] for n in st.networks],
                 "ud": None if ud is None else self.fval("unitary_dict", ud)}
         for s in sorted(self.modules):
@@ -678,8 +684,9 @@ class Real:
                 self.models[op["slot"]] = st
             else:
                 raise AssertionError(t)
-        except (ValueError, TypeError, RuntimeError, KeyError, AttributeError, FileNotFoundError, ZeroDivisionError, IndexError,
-                pickle.UnpicklingError, EOFError) as e:
+        except AssertionError:
+            raise
+        except Exception as e:  # noqa: BLE001 - the operation is refused; WHICH exception class refuses it is nowhere compared (counters only)
             err = type(e).__name__
         return m, err
 
@@ -751,14 +758,15 @@ def tuplify(x):
 
 def snapshot_state(st):
     """independent deep snapshot of a state (for the oracles): nets -> name -> cloned tensor, unitary dict, sizes"""
-    ud = st.__dict__.get("unitary_dict") if "unitary_dict" in st.__dict__ else None
+    has_ud = hasattr(st, "unitary_dict")
+    ud = st.unitary_dict if has_ud else None
     if isinstance(ud, dict) and all(isinstance(v, torch.Tensor) for v in ud.values()):
         ud = {k: v.detach().clone() for k, v in ud.items()}
-    elif "unitary_dict" in st.__dict__:  # an attribute that is not a dictionary of tensors: a state of the object no history should reach
+    elif has_ud:  # an attribute that is not a dictionary of tensors: a state of the object no history should reach
         ud = {"<not a unitary dictionary>": repr(ud)[:120]}
     snap = {"nets": {n: {k: v.detach().clone() for k, v in getattr(st, n).named_parameters()} for n in st.networks},
             "ud": ud,
-            "arch": (int(st.__dict__["num_visible"]), int(st.__dict__["num_hidden"]), st.__dict__.get("num_aux")),
+            "arch": (int(st.num_visible), int(st.num_hidden), (int(st.num_aux) if isinstance(st, DensityMatrix) else None)),
             "kind": type(st).__name__}
     return snap
 
@@ -779,7 +787,7 @@ def admissible(real, op):
         return False
     if t == "write" and op["net"] not in real.models[op["slot"]].networks:
         return False
-    if t == "addUnitary" and "unitary_dict" not in real.models[op["slot"]].__dict__:
+    if t == "addUnitary" and not hasattr(real.models[op["slot"]], "unitary_dict"):
         return False
     if t == "save" and op["md"] is not None and op["md"] not in real.metas:
         return False
@@ -801,7 +809,7 @@ def admissible(real, op):
             return False
     if t == "train" and op.get("bases"):
         # the training data uses the bases X, Y and Z: a state whose dictionary lacks one of them cannot be trained on it (KeyError)
-        ud0 = real.models[op["slot"]].__dict__.get("unitary_dict")
+        ud0 = getattr(real.models[op["slot"]], "unitary_dict", None)
         if ud0 is not None and not all(b in ud0 for b in "XYZ"):
             return False
         # a ComplexWaveFunction whose parameters are ALL exactly zero (only reachable through a zero_weights=True module) is the uniform
@@ -842,10 +850,25 @@ def run_history(ctx, case, drv_op, hooks, level_fn):
             ctx.count(f"op={op['t']}")
             if mop is None:  # harness-only operation (the caller creating one of his own objects): no model step
                 continue
+            if getattr(hooks, "cut", False):
+                # the implementation did something no clause of the property constrains and the model cannot follow (e.g. it ACCEPTED a
+                # metadata dict with a non-string key): the history ends before this operation
+                ctx.count(f"history_cut_at_unconstrained_outcome:{op['t']}")
+                break
             mops.append(mop)
             kept.append(op)
             obs.append((err, w))
             ctx.count(f"err={err}")
+            if op["t"] == "load" and err is not None:
+                # what a REFUSED load leaves in the model's parameters (nothing, or the networks copied before the offending one) is not
+                # constrained by the property: the model is re-synchronised from the implementation (one external write per network)
+                st = real.models[op["slot"]]
+                for n in st.networks:
+                    sync = {"t": "write", "slot": op["slot"], "net": n, "sync": True}
+                    mops.append({**sync, "toks": real.all_tokens(getattr(st, n))})
+                    kept.append(sync)
+                    obs.append((None, w))
+                ctx.count("resync_after_refused_load")
         if ctx.driver is not None and mops:
             res = ctx.driver.call(drv_op, ops=mops)
             for k, ((err, w), mw) in enumerate(zip(obs, res)):
@@ -861,6 +884,8 @@ def run_history(ctx, case, drv_op, hooks, level_fn):
                 iw = tuplify(canon_world(w))
                 cm = tuplify(canon_world(mw))
                 for comp in ("states", "modules", "metas", "files"):
+                    if op["t"] == "load" and err is not None and comp in ("states", "modules"):
+                        continue   # parameters after a refused load: unconstrained (re-synchronised by the next steps)
                     ctx.point(f"{op['t']}.{comp}", lvl, iw[comp], cm[comp], cs, exact=True, sig=f"{sig}/{comp}",
                               theorem=hooks.theorem(op, comp))
         return kept, obs
